@@ -20,7 +20,7 @@
    Mount with its stored labels; [mbad] = ids whose Mount fails; a failure aborts construction unless
    allowInvalidMountsOnRestart. *)
 From Coq Require Import List Arith Bool.
-From SV Require Import Model.Snap.
+From SV Require Export Model.Snap.
 Import ListNotations.
 
 Definition image (s : st) (m : list (name * info)) (q : nat) (d : list dirent) : st :=
@@ -48,8 +48,9 @@ Definition order_ok (order : list nat) (ds : list dirent) : bool :=
 Definition create_points (s : st) (k : kind) (key : name) (parent : option name) (l : labels) : list (nat * st) :=
   if closed s then [] else
   let td := DTemp (tmpc s) in
-  let I1 := image s (meta s) (seq s) (td :: dirs s) in
-  let I0 := image s (meta s) (seq s) (rm_dirent (td :: dirs s) td) in
+  let sb := set_tmpc s (S (tmpc s)) in      (* the temp name is used up *)
+  let I1 := image sb (meta s) (seq s) (td :: dirs s) in
+  let I0 := image sb (meta s) (seq s) (rm_dirent (td :: dirs s) td) in
   match meta_create s k key parent with
   | inl _ => [(1, I1); (11, I1); (12, I0)]
   | inr sn =>
@@ -57,11 +58,11 @@ Definition create_points (s : st) (k : kind) (key : name) (parent : option name)
       if negb parent_ok then [(1, I1); (2, I1); (11, I1); (12, I0)] else
       if has_dir s (DId (sn_id sn)) then
         [(1, I1); (2, I1); (11, I1); (12, I0); (11, I0);
-         (12, image s (meta s) (seq s) (rm_dirent (rm_dirent (td :: dirs s) td) (DId (sn_id sn))))]
+         (12, image sb (meta s) (seq s) (rm_dirent (rm_dirent (td :: dirs s) td) (DId (sn_id sn))))]
       else
         let d3 := DId (sn_id sn) :: rm_dirent (td :: dirs s) td in
-        [(1, I1); (2, I1); (3, image s (meta s) (seq s) d3);
-         (4, image s ((key, mkI (sn_id sn) k parent l) :: meta s) (sn_id sn) d3)]
+        [(1, I1); (2, I1); (3, image sb (meta s) (seq s) d3);
+         (4, image sb ((key, mkI (sn_id sn) k parent l) :: meta s) (sn_id sn) d3)]
   end.
 
 Definition crash_points (order : list nat) (s : st) (o : op) : list (nat * st) :=
@@ -112,6 +113,16 @@ Definition crash_points (order : list nat) (s : st) (o : op) : list (nat * st) :
       if order_ok order (cleanup_list s true)
       then cleanup_points s (meta s) (seq s) true (dirs s) (map DId order) else []
   | _ => []
+  end.
+
+(* the names an interrupted call is about (its key, its target / commit name) *)
+Definition touches (o : op) (n : name) : Prop :=
+  match o with
+  | Prepare key _ l _ _ => n = key \/ l_target l = Some n
+  | View key _ _ _ => n = key
+  | Commit nm key _ => n = nm \/ n = key
+  | Remove key _ => n = key
+  | _ => False
   end.
 
 (* ---------- restart ---------- *)
